@@ -110,6 +110,13 @@ def corrupt(plugin, res, kind, start, end, dt):
         return r
     if kind == "label":
         return direct_chunk(plugin, res, start, end, "zzz")
+    if kind == "sibling_label":
+        # multi-output: the chunk delivered for one output carries the label of its sibling output
+        return direct_chunk(plugin, res, start, end, "vicb")
+    if kind == "sibling_chunk":
+        # ... and the sibling's (different) dtype: a valid chunk of the sibling passed off as this output
+        bad = to_bad(res)
+        return direct_chunk(plugin, bad, start, end, "vicb", dtype=bad.dtype)
     if kind == "gap":
         return plugin.chunk(start=start + 1, end=end, data=res[res["time"] >= start + 1], data_type=dt)
     if kind == "overlap":
@@ -175,7 +182,7 @@ def make_plugins(case):
         class Vic(strax.Plugin):
             provides = ("vic", "vicb")
             depends_on = ("ev",)
-            dtype = dict(vic=g, vicb=g)
+            dtype = dict(vic=g, vicb=dtypes()[1] if vk == "sibling_chunk" else g)
             data_kind = dict(vic="ev", vicb="vicb")
             rechunk_on_save = False
             save_when = immutabledict(vic=strax.SaveWhen.ALWAYS, vicb=strax.SaveWhen.ALWAYS)
@@ -189,7 +196,8 @@ def make_plugins(case):
                         REACHED["n"] += 1
                         return r
                     return dict(vic=r, vicb=r[r["v0"] % 2 == 0])
-                return dict(vic=maybe(self, r, start, end), vicb=r[r["v0"] % 2 == 0])
+                rb = r[r["v0"] % 2 == 0]
+                return dict(vic=maybe(self, r, start, end), vicb=to_bad(rb) if vk == "sibling_chunk" else rb)
     elif pk == "down":
         class Vic(strax.DownChunkingPlugin):
             provides = "vic"
@@ -310,7 +318,8 @@ def make_plugins(case):
 APPLICABLE = {
     "source": ["dtype_chunk", "dtype_chunk_declared", "dtype_selfchunk", "late_row", "late_row_inner", "early_row", "label", "gap", "overlap"],
     "ordinary": ["dtype_bare", "dtype_chunk", "dtype_chunk_declared", "dtype_selfchunk", "late_row", "late_row_inner", "early_row", "label"],
-    "multi": ["dtype_bare", "dtype_chunk", "dtype_chunk_declared", "late_row", "late_row_inner", "label", "nondict"],
+    "multi": ["dtype_bare", "dtype_chunk", "dtype_chunk_declared", "late_row", "late_row_inner", "label", "nondict",
+              "sibling_label", "sibling_chunk"],
     "down": ["dtype_chunk", "dtype_chunk_declared", "dtype_selfchunk", "label", "late_row", "late_row_inner", "gap", "overlap", "nongen", "nonchunk"],
     "loop": ["dtype_bare", "late_row", "late_row_inner", "early_row", "dtype_chunk_declared"],
     "cut": ["dtype_bare", "late_row"],
